@@ -57,7 +57,7 @@ impl OutputFormat for Artworx {
             return Err(SavingError::Only8x16FontsSupported.into());
         }
 
-        if let Some(font) = buf.get_font(fonts[0]) {
+        if let Some(font) = buf.get_font(*fonts.first().unwrap_or(&0)) {
             result.extend(font.convert_to_u8_data());
         } else {
             return Err(SavingError::NoFontFound.into());
